@@ -304,9 +304,13 @@ def build(case, root, rng):
     cond = ir.Value(name="cond", type=ir.TensorType(ir.DataType.BOOL), shape=ir.Shape([]))
     nodes, outs, main_inits, extra_inputs = [], [], [], []
 
-    def branch(i, v, deep, as_input):
-        idn = ir.node("Identity", [v], outputs=[ir.Value(name=f"s{i}")], name=f"sid{i}")
-        inner = ir.Graph([v] if as_input else [], [idn.outputs[0]], nodes=[idn], initializers=[v], name=f"then{i}")
+    def branch(i, v, deep, as_input, nodeless=False):
+        if nodeless:
+            # a branch WITHOUT any node: it returns its own initializer (graphs reachable only through node.graph are missed)
+            inner = ir.Graph([v] if as_input else [], [v], nodes=[], initializers=[v], name=f"then{i}")
+        else:
+            idn = ir.node("Identity", [v], outputs=[ir.Value(name=f"s{i}")], name=f"sid{i}")
+            inner = ir.Graph([v] if as_input else [], [idn.outputs[0]], nodes=[idn], initializers=[v], name=f"then{i}")
         cn = ir.node("Constant", [], attributes={"value_float": 1.5}, outputs=[ir.Value(name=f"e{i}")], name=f"ec{i}")
         els = ir.Graph([], [cn.outputs[0]], nodes=[cn], name=f"else{i}")
         ifn = ir.node("If", [cond], attributes={"then_branch": inner, "else_branch": els},
@@ -326,7 +330,8 @@ def build(case, root, rng):
             if kind in ALSO_INPUT or (KINDS[kind][1] == "mem" and rng.random() < 0.25):
                 extra_inputs.append(v)     # keep-initializers-as-inputs style
         else:
-            n = branch(i, v, rng.random() < 0.4, kind in ALSO_INPUT or (KINDS[kind][1] == "mem" and rng.random() < 0.25))
+            n = branch(i, v, rng.random() < 0.4, kind in ALSO_INPUT or (KINDS[kind][1] == "mem" and rng.random() < 0.25),
+                       nodeless=rng.random() < 0.3)
         nodes.append(n)
         outs.append(n.outputs[0])
     xn = ir.node("Neg", [x], outputs=[ir.Value(name="y")], name="neg")
